@@ -123,6 +123,9 @@ def check_score(case):
         require(abs(s - expected) <= 1e-12 * (1 + abs(expected)), "score:not-twice-mean-pinball",
                 "%s: score=%.12g, 2*mean pinball_q=%.12g, 2*mean pinball_(1-q)=%.12g (q=%r)" % (name, s, expected,
                                                                                           2.0 * pinball(ya, f, 1 - q) / len(ya), q), facts)
+        # unit weights are the unweighted score whatever the quantile (sound without defining the weighted mean)
+        s1 = float(m.score(A, ya, sample_weight=np.ones(len(ya))))
+        require(abs(s1 - s) <= 1e-12 * (1 + abs(s)), "score:unit-weights-differ", "%s: score with sample_weight=ones is %.12g, without %.12g" % (name, s1, s), facts)
         if q == 0.5:
             require(abs(s - mean_absolute_error(ya, f)) <= 1e-12 * (1 + abs(s)), "score:not-mae", "", facts)
             if w is not None and name == "train":
